@@ -60,12 +60,23 @@ def Bounded (s : St) (l : String) : Prop :=
 /-- a line that is neither a construct label nor a construct jump -/
 def plainLine (l : BLine) : Bool := (clab l).isNone && (cgo l).isNone
 
+/-- the kinds of line the start code is made of: no label of any kind, no jump -/
+def startLine : BLine → Bool
+  | .raw _ | .set _ _ => true
+  | _ => false
+
+theorem startLine_plain {l : BLine} (h : startLine l = true) : plainLine l = true := by
+  cases l <;> simp [startLine] at h <;> rfl
+
 structure LInv (s : St) : Prop where
-  startPlain : ∀ l ∈ s.startCode, plainLine l = true
+  startRaw : ∀ l ∈ s.startCode, startLine l = true
   nd : (clabels s ++ s.ifs ++ s.endLabels).Nodup
   bd : ∀ l, l ∈ clabels s ∨ l ∈ s.ifs ∨ l ∈ s.endLabels ∨ l ∈ s.fors → Bounded s l
   forsDef : ∀ l ∈ s.fors, l ∈ clabels s
   gt : ∀ t ∈ cgotos s, t ∈ clabels s ∨ t ∈ s.ifs ∨ t ∈ s.endLabels
+
+theorem LInv.startPlain {s : St} (hi : LInv s) : ∀ l ∈ s.startCode, plainLine l = true :=
+  fun l hl => startLine_plain (hi.startRaw l hl)
 
 /-- what one `addLine` does to the label lists, stacks and counters -/
 structure LEff (l : BLine) (s s' : St) : Prop where
@@ -128,7 +139,7 @@ structure Same (s s' : St) : Prop where
   endLabels : s'.endLabels = s.endLabels
   ifCounter : s'.ifCounter = s.ifCounter
   forCounter : s'.forCounter = s.forCounter
-  start : ∀ l ∈ s'.startCode, l ∈ s.startCode ∨ plainLine l = true
+  start : ∀ l ∈ s'.startCode, l ∈ s.startCode ∨ startLine l = true
 
 theorem Same.refl (s : St) : Same s s := ⟨List.Perm.refl _, List.Perm.refl _, rfl, rfl, rfl, rfl, rfl, fun _ h => Or.inl h⟩
 theorem Same.trans {a b c : St} (h1 : Same a b) (h2 : Same b c) : Same a c :=
@@ -139,7 +150,7 @@ theorem Same.trans {a b c : St} (h1 : Same a b) (h2 : Same b c) : Same a c :=
 theorem Same.linv {s s' : St} (h : Same s s') (hi : LInv s) : LInv s' := by
   have mem : ∀ l, l ∈ clabels s' ↔ l ∈ clabels s := fun l => h.labs.mem_iff
   have memg : ∀ l, l ∈ cgotos s' ↔ l ∈ cgotos s := fun l => h.gos.mem_iff
-  refine ⟨fun l hl => (h.start l hl).elim (hi.startPlain l) id, ?_, ?_, ?_, ?_⟩
+  refine ⟨fun l hl => (h.start l hl).elim (hi.startRaw l) id, ?_, ?_, ?_, ?_⟩
   · rw [h.ifs, h.endLabels]
     exact ((h.labs.append_right _).append_right _).nodup_iff.mpr hi.nd
   · intro l hl
@@ -196,7 +207,7 @@ theorem po_modify (f : St → St)
   obtain ⟨h1, h2, h3, h4, h5, h6, h7, h8⟩ := hf s
   exact ⟨by simp [clabels, codeLines, h1, h2], by simp [cgotos, codeLines, h1, h2], h3, h4, h5, h6, h7, fun l hl => Or.inl (h8 ▸ hl)⟩
 
-theorem po_addStartLine (l : BLine) (hl : plainLine l = true) : PlainOp (addStartLine l) := by
+theorem po_addStartLine (l : BLine) (hl : startLine l = true) : PlainOp (addStartLine l) := by
   constructor
   intro s a s' h
   simp [addStartLine, Tr.modify] at h
@@ -465,7 +476,7 @@ theorem lok_ifStartOp (c : String) : LOk (ifStartOp c) := by
   have hl : (clabels s').Perm (clabels s) := by simpa [clab, clabels, codeLines] using e.labs
   have hg : (cgotos s').Perm (cgotos s) := by simpa [cgo, cgotos, codeLines] using e.gos
   have mem : ∀ l, l ∈ clabels s' ↔ l ∈ clabels s := fun l => hl.mem_iff
-  refine ⟨fun l hl => hi.startPlain l (e.start ▸ hl), ?_, ?_, ?_, ?_⟩
+  refine ⟨fun l hl => hi.startRaw l (e.start ▸ hl), ?_, ?_, ?_, ?_⟩
   · rw [e.ifs, e.endLabels]
     have := nodup_insert_mid (fresh_if s hi) hi.nd
     exact ((hl.append_right _).append_right _).nodup_iff.mpr this
@@ -521,7 +532,7 @@ theorem lok_ifEndOp : LOk ifEndOp := by
   have hcl : clabels { s4 with ifs := s4.ifs.tail } = clabels s4 := rfl
   have hcg : cgotos { s4 with ifs := s4.ifs.tail } = cgotos s4 := rfl
   have hst : s4.startCode = s1.startCode := by rw [e4.start, e3.start, e2.start]
-  refine ⟨fun l hl => hi.startPlain l (hst ▸ hl), ?_, ?_, ?_, ?_⟩
+  refine ⟨fun l hl => hi.startRaw l (hst ▸ hl), ?_, ?_, ?_, ?_⟩
   · show (clabels s4 ++ s4.ifs.tail ++ s4.endLabels).Nodup
     rw [hifs4, hend4]
     simp only [List.tail_cons]
@@ -569,7 +580,7 @@ theorem linv_cgoto {s1 s2 : St} {l : String} (e2 : LEff (.cgoto l) s1 s2)
   have hlab : (clabels s2).Perm (clabels s1) := by simpa [clab] using e2.labs
   have hgo : (cgotos s2).Perm (l :: cgotos s1) := by simpa [cgo] using e2.gos
   have mem : ∀ x, x ∈ clabels s2 ↔ x ∈ clabels s1 := fun x => hlab.mem_iff
-  refine ⟨fun l hl => hi.startPlain l (e2.start ▸ hl), ?_, ?_, ?_, ?_⟩
+  refine ⟨fun l hl => hi.startRaw l (e2.start ▸ hl), ?_, ?_, ?_, ?_⟩
   · rw [e2.ifs, e2.endLabels]
     exact ((hlab.append_right _).append_right _).nodup_iff.mpr hi.nd
   · intro x hx
@@ -657,7 +668,7 @@ theorem lok_forStartOp : LOk forStartOp := by
   have hst : s'.startCode = s.startCode := by rw [e5.start, e4.start, st1]
   have mem : ∀ x, x ∈ clabels s' ↔ x = forL s.forCounter ∨ x ∈ clabels s := fun x => by rw [hlab.mem_iff]; simp
   have hmono : ∀ x, Bounded s x → Bounded s' x := fun x hb => hb.mono (by omega) (by omega)
-  refine ⟨fun x hx => hi.startPlain x (hst ▸ hx), ?_, ?_, ?_, ?_⟩
+  refine ⟨fun x hx => hi.startRaw x (hst ▸ hx), ?_, ?_, ?_, ?_⟩
   · rw [hifs, hen]
     -- the two new labels are fresh and different
     have hf : ∀ x ∈ clabels s ++ s.ifs ++ s.endLabels, x ≠ forL s.forCounter ∧ x ≠ endL s.forCounter := by
@@ -759,7 +770,7 @@ theorem lok_forEndOp : LOk forEndOp := by
     have hfc : s'.forCounter = s1.forCounter := by rw [e7.forCounter, ← h6]; show s3.forCounter = _; rw [e3.forCounter, e2.forCounter]
     have hst : s'.startCode = s1.startCode := by rw [e7.start, ← h6]; show s3.startCode = _; rw [e3.start, e2.start]
     have mem : ∀ x, x ∈ clabels s' ↔ x = e ∨ x ∈ clabels s1 := fun x => by rw [hlab.mem_iff]; simp
-    refine ⟨fun x hx => hi.startPlain x (hst ▸ hx), ?_, ?_, ?_, ?_⟩
+    refine ⟨fun x hx => hi.startRaw x (hst ▸ hx), ?_, ?_, ?_, ?_⟩
     · rw [hifs, hen']
       have := hi.nd
       rw [hen1] at this
